@@ -208,3 +208,22 @@ Definition diag_prog (c : prog_case) :=
     (map fst (pc_stores c)) (pc_stores c)
     (mk_world fstate (pc_stores c) (repeat (conn_init cfg) (pc_conns c))) 0
     (pc_events c) (pc_expect c).
+
+(* compact spellings of swept inputs (the case files stay small): one byte of
+   a base buffer replaced, one byte inserted, a name wrapped in
+   GETSCRIPT {n+} CRLF name CRLF *)
+Fixpoint rep (b : bytes) (k : nat) (c : N) : bytes :=
+  match b, k with
+  | [], _ => []
+  | _ :: r, O => c :: r
+  | x :: r, S k' => x :: rep r k' c
+  end.
+Fixpoint ins (b : bytes) (k : nat) (c : N) : bytes :=
+  match k, b with
+  | O, _ => c :: b
+  | S k', x :: r => x :: ins r k' c
+  | S _, [] => [c]
+  end.
+Definition getscript_lit (name : bytes) : bytes :=
+  ([71;69;84;83;67;82;73;80;84;32;123]%N ++ Decimal.dec_of_N (N.of_nat (length name))
+   ++ [43;125;13;10]%N ++ name ++ [13;10]%N).
